@@ -240,6 +240,8 @@ def generation_function(repo: Repo) -> Function:
 
 
 def run(repo: Repo, rep: Report, tier: str) -> None:
+    from sa.report import guarded as _guarded
+
     gen = generation_function(repo)
     from sa.flatten import flatten as _flgen
 
@@ -423,19 +425,19 @@ def run(repo: Repo, rep: Report, tier: str) -> None:
                       "a difference reported by _show_diffs does not lead to `raise GenerationError` (some result is ignored)", gen.loc(sw))
 
     diff_coverage(repo, rep, "R10.6", gen, diff_body)
-    rule_postprocess_targets_are_files(repo, rep, "R10.7")
+    _guarded(rep, rule_postprocess_targets_are_files, repo, rep, "R10.7")
     # R10.8: "on a difference / on a failure it raises" needs the document as it is now: nothing read from outside is memoised      [= R9.13]
     # R10.9: ... and a comparison that looks at every generated file                                                            [= R9.4]
     from rules.c09 import rule_no_memoised_outside_reads, rule_show_diffs_compares_all
 
-    rule_no_memoised_outside_reads(repo, rep, "R10.8")
-    rule_show_diffs_compares_all(repo, rep, "R10.9")
+    _guarded(rep, rule_no_memoised_outside_reads, repo, rep, "R10.8")
+    _guarded(rep, rule_show_diffs_compares_all, repo, rep, "R10.9")
     # R10.10: "on a match it succeeds" - both branches create the ancestor __init__.py files of the same directories               [= R9.10]
     from rules._reuse import reuse as _reuse1010
 
     _reuse1010(repo, rep, "c09", {"R9.10": "R10.10"})
-    rule_formatter_writes_no_cache(repo, rep, "R10.11")
-    rule_formatter_is_isolated(repo, rep, "R10.12")  # "on a match it succeeds": both trees are formatted under the same configuration   [= R9.14]
+    _guarded(rep, rule_formatter_writes_no_cache, repo, rep, "R10.11")
+    _guarded(rep, rule_formatter_is_isolated, repo, rep, "R10.12")  # "on a match it succeeds": both trees are formatted under the same configuration   [= R9.14]
 
     # ---------------------------------------------------------------- R10.2 / R10.3 sinks over the generation path
     live = repo.import_closure(["generator.client_generator"])
